@@ -34,34 +34,54 @@ CONSTANTS MaxDev,      \* signature-status vectors with at most MaxDev non-valid
           KF_V1OmitsHDInfo,         \* the version-1 pre-image does not contain HD_info
           KF_V12OmitsEmpty,         \* the version-1/2 pre-image omits empty fields and has no counts
           KF_MarkedFlagUncovered,   \* modify_block.marked changes processing but is in no pre-image
-          KF_CoinbaseRider          \* a block's coinbase transaction is never verified but its read / write set is applied
+          KF_CoinbaseRider,         \* a block's coinbase transaction is never verified but its read / write set is applied
+          KF_PlayPooledIdUnchecked  \* PlayAndRepost neither verifies nor applies a block entry that claims the id of a pooled transaction
 
-VARIABLES phase,    \* "init" -> "built" -> "verified" -> "mutated" -> "done"
+VARIABLES phase,    \* "init" -> "built" -> "verified" -> "mutated" -> "done"; "verified" / "done" -> "blocked"
           tx,       \* abstract transaction under verification
           orig,     \* the transaction as built (base of a mutation)
           mut,      \* mutation applied or NoMut
           verdict,  \* "ok" | "rej" | "soft" | "-"
+          subm,     \* answer of the engine entry Chain.SubmitTx: "ok" | "rej" | "-"
+          blk,      \* the transaction arrived inside a peer block: plan and outcome, or NoBlk
           hist
-vars == <<phase, tx, orig, mut, verdict, hist>>
+vars == <<phase, tx, orig, mut, verdict, subm, blk, hist>>
 
-K0 == [xs |-> FALSE, mref |-> FALSE, ghost |-> FALSE, v1hd |-> FALSE, omit |-> FALSE, mflag |-> FALSE, cb |-> FALSE]
+K0 == [xs |-> FALSE, mref |-> FALSE, ghost |-> FALSE, v1hd |-> FALSE, omit |-> FALSE, mflag |-> FALSE, cb |-> FALSE, ppool |-> FALSE]
 KC == [xs |-> KF_XuperSignSingleKey, mref |-> KF_MarkedRefSoftAccept, ghost |-> KF_GhostAccountInitiator,
-       v1hd |-> KF_V1OmitsHDInfo, omit |-> KF_V12OmitsEmpty, mflag |-> KF_MarkedFlagUncovered, cb |-> KF_CoinbaseRider]
-KA == [xs |-> TRUE, mref |-> TRUE, ghost |-> TRUE, v1hd |-> TRUE, omit |-> TRUE, mflag |-> TRUE, cb |-> TRUE]
+       v1hd |-> KF_V1OmitsHDInfo, omit |-> KF_V12OmitsEmpty, mflag |-> KF_MarkedFlagUncovered, cb |-> KF_CoinbaseRider,
+       ppool |-> KF_PlayPooledIdUnchecked]
+KA == [xs |-> TRUE, mref |-> TRUE, ghost |-> TRUE, v1hd |-> TRUE, omit |-> TRUE, mflag |-> TRUE, cb |-> TRUE, ppool |-> TRUE]
 KFName == [xs |-> "KF_XuperSignSingleKey", mref |-> "KF_MarkedRefSoftAccept", ghost |-> "KF_GhostAccountInitiator",
-           v1hd |-> "KF_V1OmitsHDInfo", omit |-> "KF_V12OmitsEmpty", mflag |-> "KF_MarkedFlagUncovered", cb |-> "KF_CoinbaseRider"]
+           v1hd |-> "KF_V1OmitsHDInfo", omit |-> "KF_V12OmitsEmpty", mflag |-> "KF_MarkedFlagUncovered", cb |-> "KF_CoinbaseRider",
+           ppool |-> "KF_PlayPooledIdUnchecked"]
 Only(g) == [K0 EXCEPT ![g] = TRUE]
 
 -----------------------------------------------------------------------------
-(* Names.  Keys k1 k2 k3 (parties), kx (outsider).  Accounts A (rule: k2 and k3), B (rule: k2 and kx), *)
-(* G (account form, never created: no rule).  C: the address of the paying contract.                  *)
+(* Names.  Keys k1 k2 k3 (parties), kx (outsider).  C: the address of the paying contract.  Accounts (created *)
+(* on the fixture chain by $acl.NewAccount; the driver reads the rules back and the trace spec compares):  *)
+(*   A  threshold 2: k2 1, k3 1           two distinct members needed                                      *)
+(*   B  threshold 2: k2 1, kx 1           never met by the parties                                         *)
+(*   T  threshold 2: k1 1, k2 1, k3 1     two of three                                                     *)
+(*   L  threshold 3: k2 1, k3 1           all weights together stay below the threshold                    *)
+(*   S  threshold 2: k2 2, k3 1           k2 alone suffices, k3 alone does not                             *)
+(*   K  key sets {k1, k2} or {k3}                                                                          *)
+(*   G  account form, never created: no rule                                                               *)
 Keys  == {"k1", "k2", "k3", "kx"}
-Accts == {"A", "B", "G"}
+KeySeq == <<"k1", "k2", "k3", "kx">>
+Accts == {"A", "B", "G", "T", "L", "S", "K"}
 IsKey(n)  == n \in Keys
 IsAcct(n) == n \in Accts
-HasRule(a) == a \in {"A", "B"}
-Weight(a, k) == IF a = "A" /\ k \in {"k2", "k3"} THEN 1 ELSE IF a = "B" /\ k \in {"k2", "kx"} THEN 1 ELSE 0
-Accept(a) == 2
+HasRule(a) == a \in Accts \ {"G"}
+RuleKind(a) == IF a = "K" THEN "sets" ELSE "thr"
+Weight(a, k) == CASE a = "A" -> (IF k \in {"k2", "k3"} THEN 1 ELSE 0)
+                  [] a = "B" -> (IF k \in {"k2", "kx"} THEN 1 ELSE 0)
+                  [] a = "T" -> (IF k \in {"k1", "k2", "k3"} THEN 1 ELSE 0)
+                  [] a = "L" -> (IF k \in {"k2", "k3"} THEN 1 ELSE 0)
+                  [] a = "S" -> (IF k = "k2" THEN 2 ELSE IF k = "k3" THEN 1 ELSE 0)
+                  [] OTHER -> 0
+Accept(a) == IF a = "L" THEN 3 ELSE 2
+KeySets(a) == IF a = "K" THEN {{"k1", "k2"}, {"k3"}} ELSE {}
 SumW(a, S) == FoldSet(LAMBDA k, acc : acc + Weight(a, k), 0, S)
 Rng(s) == {s[i] : i \in DOMAIN s}
 Idx(n) == IF n = 0 THEN <<>> ELSE [i \in 1..n |-> i]
@@ -83,14 +103,21 @@ InMK(o) == [own |-> o, cj |-> FALSE, mk |-> TRUE]
 SingleKinds == {"ecdsa", "xecdsa", "schnorr"}
 
 -----------------------------------------------------------------------------
-(* utils.IdentifyAccount(account, uris) over the rules above: only URIs account/key count, every      *)
-(* distinct key once (ptree.FindChild), final components were verified before.                        *)
-MembersVia(a, uris) == {u[2] : u \in {w \in Rng(uris) : Len(w) = 2 /\ w[1] = a}}
+(* utils.IdentifyAccount(account, uris), transcribed: ptree.buildPermTree walks the URIs in order; only    *)
+(* URIs account/key hang a child under the root, FindChild merges a repeated name into the node that is   *)
+(* already there; the validator then walks the children (ThresholdValidator: sum of the weights, one per  *)
+(* child; AKSetsValidator: some set all of whose keys are children).  Final components were verified      *)
+(* before.                                                                                                *)
+Dedup(s) == FoldLeft(LAMBDA acc, x : IF x \in Rng(acc) THEN acc ELSE Append(acc, x), <<>>, s)
+Children(a, uris) == Dedup(FoldLeft(LAMBDA acc, u : IF Len(u) = 2 /\ u[1] = a THEN Append(acc, u[2]) ELSE acc, <<>>, uris))
 IdAcct(K, a, uris) == IF ~HasRule(a) THEN TRUE      \* "empty ACL means everyone could pass"
-                      ELSE SumW(a, MembersVia(a, uris)) >= Accept(a)
+                      ELSE LET ch == Children(a, uris) IN
+                           IF RuleKind(a) = "thr" THEN FoldLeft(LAMBDA sum, k : sum + Weight(a, k), 0, ch) >= Accept(a)
+                           ELSE \E ks \in KeySets(a) : ks \subseteq Rng(ch)
+(* the members a signer list names for an account, as a set (the semantic reading; used for the honest forms) *)
+MembersVia(a, uris) == {u[2] : u \in {w \in Rng(uris) : Len(w) = 2 /\ w[1] = a}}
 
 (* State.verifyXuperSign *)
-Dedup(s) == FoldLeft(LAMBDA acc, x : IF x \in Rng(acc) THEN acc ELSE Append(acc, x), <<>>, s)
 Lasts(auth) == FoldLeft(LAMBDA acc, u : Append(acc, LastOf(u)), <<>>, auth)
 AddrList(t) == Dedup(<<t.init>> \o Lasts(t.auth))
 XSigOK(K, xs) ==
@@ -159,7 +186,7 @@ ValidSigners(t) ==
               ELSE {})
         ELSE {})
 Listed(t) == ({t.init} \cap Keys) \cup {LastOf(t.auth[i]) : i \in DOMAIN t.auth}
-RuleMet(a, S) == HasRule(a) /\ SumW(a, S) >= Accept(a)
+RuleMet(a, S) == HasRule(a) /\ (IF RuleKind(a) = "thr" THEN SumW(a, S) >= Accept(a) ELSE \E ks \in KeySets(a) : ks \subseteq S)
 Authorised(t) ==
   LET vs == ValidSigners(t) IN
   /\ t.ver \in 1..3
@@ -188,22 +215,58 @@ FormDef ==
    ghost  |-> [init |-> "G",  isl |-> <<"k1">>,       auth |-> <<>>,                              pks |-> <<>>],
    xs1    |-> [init |-> "k1", isl |-> <<>>,           auth |-> <<>>,                              pks |-> <<"k1">>],
    xs3    |-> [init |-> "k1", isl |-> <<>>,           auth |-> <<U1("k2"), U1("k3")>>,            pks |-> <<"k1", "k2", "k3">>],
-   xsA    |-> [init |-> "k1", isl |-> <<>>,           auth |-> <<UA("A", "k2"), UA("A", "k3")>>,  pks |-> <<"k1", "k2", "k3">>]]
-SigForms == {"addr", "self", "multi", "multiA", "acct", "acctI", "ghost"}
-XSForms  == {"xs1", "xs3", "xsA"}
+   xsA    |-> [init |-> "k1", isl |-> <<>>,           auth |-> <<UA("A", "k2"), UA("A", "k3")>>,  pks |-> <<"k1", "k2", "k3">>],
+   \* signer lists with repeated and aliasing entries, rules that need distinct members
+   dupA   |-> [init |-> "k1", isl |-> <<"k1">>,       auth |-> <<UA("A", "k2"), UA("A", "k2")>>,                 pks |-> <<>>],   \* one member listed twice
+   dupA3  |-> [init |-> "k1", isl |-> <<"k1">>,       auth |-> <<UA("A", "k2"), UA("A", "k2"), UA("A", "k3")>>,  pks |-> <<>>],   \* ... beside the second member
+   alias  |-> [init |-> "k1", isl |-> <<"k1">>,       auth |-> <<U1("k2"), UA("A", "k2")>>,                      pks |-> <<>>],   \* one key through two URIs
+   alias2 |-> [init |-> "k1", isl |-> <<"k1">>,       auth |-> <<UA("A", "k2"), UA("B", "k2")>>,                 pks |-> <<>>],   \* one key for two accounts
+   halfA  |-> [init |-> "k1", isl |-> <<"k1">>,       auth |-> <<UA("A", "k2")>>,                                pks |-> <<>>],
+   memb   |-> [init |-> "k2", isl |-> <<"k2">>,       auth |-> <<UA("A", "k2")>>,                                pks |-> <<>>],   \* a member initiates and lists itself
+   acctD  |-> [init |-> "A",  isl |-> <<"k2", "k2">>, auth |-> <<>>,                                             pks |-> <<>>],   \* account initiator signed twice by one member
+   acctDA |-> [init |-> "A",  isl |-> <<"k2", "k2">>, auth |-> <<UA("A", "k2"), UA("A", "k2")>>,                 pks |-> <<>>],
+   acctT  |-> [init |-> "T",  isl |-> <<"k1", "k3">>, auth |-> <<>>,                                             pks |-> <<>>],
+   t23    |-> [init |-> "k1", isl |-> <<"k1">>,       auth |-> <<UA("T", "k1"), UA("T", "k2")>>,                 pks |-> <<>>],   \* two of three
+   tdup   |-> [init |-> "k1", isl |-> <<"k1">>,       auth |-> <<UA("T", "k2"), UA("T", "k2")>>,                 pks |-> <<>>],
+   ldup   |-> [init |-> "k1", isl |-> <<"k1">>,       auth |-> <<UA("L", "k2"), UA("L", "k3"), UA("L", "k2")>>,  pks |-> <<>>],   \* weights below the threshold
+   s1     |-> [init |-> "k1", isl |-> <<"k1">>,       auth |-> <<UA("S", "k2")>>,                                pks |-> <<>>],
+   sdup   |-> [init |-> "k1", isl |-> <<"k1">>,       auth |-> <<UA("S", "k3"), UA("S", "k3")>>,                 pks |-> <<>>],
+   kset   |-> [init |-> "k1", isl |-> <<"k1">>,       auth |-> <<UA("K", "k3")>>,                                pks |-> <<>>],
+   kset2  |-> [init |-> "k1", isl |-> <<"k1">>,       auth |-> <<UA("K", "k1"), UA("K", "k2")>>,                 pks |-> <<>>],
+   khalf  |-> [init |-> "k1", isl |-> <<"k1">>,       auth |-> <<UA("K", "k2"), UA("K", "k2")>>,                 pks |-> <<>>],
+   \* aggregated-signature form with account initiators and account-owned inputs (an account has no key: pks names
+   \* the signers of auth only; the public-key status "lead" puts a key into the initiator's position)
+   xsAi   |-> [init |-> "A",  isl |-> <<>>,           auth |-> <<UA("A", "k2"), UA("A", "k3")>>,  pks |-> <<"k2", "k3">>],        \* members that meet the rule
+   xsAiH  |-> [init |-> "A",  isl |-> <<>>,           auth |-> <<UA("A", "k2")>>,                 pks |-> <<"k2">>],              \* one member: rule not met
+   xsAiX  |-> [init |-> "A",  isl |-> <<>>,           auth |-> <<U1("kx")>>,                      pks |-> <<"kx">>],              \* a stranger
+   xsAiXX |-> [init |-> "A",  isl |-> <<>>,           auth |-> <<U1("kx"), U1("k1")>>,            pks |-> <<"kx", "k1">>],        \* strangers multi-sign
+   xsAiXA |-> [init |-> "A",  isl |-> <<>>,           auth |-> <<UA("A", "kx"), UA("A", "k1")>>,  pks |-> <<"kx", "k1">>],        \* ... naming the account
+   xsAi0  |-> [init |-> "A",  isl |-> <<>>,           auth |-> <<>>,                              pks |-> <<"k2">>],              \* no signer listed
+   xsAh   |-> [init |-> "k1", isl |-> <<>>,           auth |-> <<UA("A", "k2")>>,                 pks |-> <<"k1", "k2">>],
+   xsAd   |-> [init |-> "k1", isl |-> <<>>,           auth |-> <<UA("A", "k2"), UA("A", "k2")>>,  pks |-> <<"k1", "k2">>],
+   xsT    |-> [init |-> "k1", isl |-> <<>>,           auth |-> <<UA("T", "k2"), UA("T", "k3")>>,  pks |-> <<"k1", "k2", "k3">>]]
+OldSigForms == {"addr", "self", "multi", "multiA", "acct", "acctI", "ghost"}
+RuleForms == {"dupA", "dupA3", "alias", "alias2", "halfA", "memb", "acctD", "acctDA", "acctT", "t23", "tdup", "ldup", "s1", "sdup", "kset", "kset2", "khalf"}
+OldXSForms == {"xs1", "xs3", "xsA"}
+AcctXSForms == {"xsAi", "xsAiH", "xsAiX", "xsAiXX", "xsAiXA", "xsAi0", "xsAh", "xsAd", "xsT"}
+SigForms == OldSigForms \cup RuleForms
+XSForms  == OldXSForms \cup AcctXSForms
+OldForms == OldSigForms \cup OldXSForms
 Forms == SigForms \cup XSForms
-HonestForms == Forms \ {"ghost"}
+(* forms no honest sender uses: the code refuses them whatever is signed *)
+HonestForms == Forms \ {"ghost", "acctD", "acctDA", "xsAi", "xsAiH", "xsAiX", "xsAiXX", "xsAiXA", "xsAi0"}
 Slots(f) == FormDef[f].isl \o Lasts(FormDef[f].auth)
 
 (* per-slot signature statuses *)
-Statuses == <<"valid", "invalid", "forged", "otherkey", "othertx", "missing">>
-SigOf(st, k) == CASE st = "valid"    -> Sig(k, k, "this")
+Statuses == <<"valid", "invalid", "forged", "otherkey", "othertx", "missing", "first">>
+SigOf(st, k, k1st) == CASE st = "valid"    -> Sig(k, k, "this")
                   [] st = "invalid"  -> Sig(k, "junk", "this")       \* corrupted signature bytes
                   [] st = "forged"   -> Sig(k, "kx", "this")         \* k's public key, signed with another key
                   [] st = "otherkey" -> Sig("kx", "kx", "this")      \* another key signs and shows its own public key
                   [] st = "othertx"  -> Sig(k, k, "other")           \* k's valid signature for another transaction
                   [] st = "missing"  -> Sig(k, k, "this")            \* (dropped from the list)
-Keep(f, sg, lo, hi) == FoldLeft(LAMBDA acc, i : IF i < lo \/ i > hi \/ sg[i] = "missing" THEN acc ELSE Append(acc, SigOf(sg[i], Slots(f)[i])),
+                  [] st = "first"    -> Sig(k1st, k1st, "this")      \* replay: the valid entry of the first slot's key, put here again
+Keep(f, sg, lo, hi) == FoldLeft(LAMBDA acc, i : IF i < lo \/ i > hi \/ sg[i] = "missing" THEN acc ELSE Append(acc, SigOf(sg[i], Slots(f)[i], Slots(f)[1])),
                                 <<>>, Idx(Len(sg)))
 (* all status vectors of length n with at most d non-valid entries *)
 RECURSIVE Vecs(_, _)
@@ -213,13 +276,14 @@ Vecs(n, d) == IF n = 0 THEN {<<>>}
 AllValid(n) == [i \in 1..n |-> "valid"]
 
 (* aggregated-signature statuses: public-key list x signature *)
-PkStatuses == {"ok", "swap", "alien", "short", "long"}
+PkStatuses == {"ok", "swap", "alien", "short", "long", "lead"}
 PksOf(p, st) == CASE st = "ok" -> p
                   [] st = "swap" -> IF Len(p) >= 2 THEN <<p[2], p[1]>> \o SubSeq(p, 3, Len(p)) ELSE p
-                  [] st = "alien" -> [p EXCEPT ![Len(p)] = "kx"]
-                  [] st = "short" -> SubSeq(p, 1, Len(p) - 1)
+                  [] st = "alien" -> IF p = <<>> THEN p ELSE [p EXCEPT ![Len(p)] = "kx"]
+                  [] st = "short" -> IF p = <<>> THEN p ELSE SubSeq(p, 1, Len(p) - 1)
                   [] st = "long" -> Append(p, "kx")
-XSigStatuses == {"honest", "other", "aggsub", "ecdsa1", "ecdsa1other", "ecdsa2", "xecdsa1", "schnorr1", "ring1", "ring2", "junk", "empty"}
+                  [] st = "lead" -> <<"k2">> \o p          \* a key in the position of an (account) initiator
+XSigStatuses == {"honest", "other", "aggsub", "aggq", "ecdsa1", "ecdsa1other", "ecdsa2", "xecdsa1", "schnorr1", "ring1", "ring2", "junk", "empty"}
 HonestKind(p) == IF Len(p) = 1 THEN "ecdsa" ELSE "agg"
 XSOf(p, pkst, sst) ==
   LET q == PksOf(p, pkst)
@@ -227,6 +291,7 @@ XSOf(p, pkst, sst) ==
   CASE sst = "honest"      -> XS(q, HonestKind(p), p, "this")
     [] sst = "other"       -> XS(q, HonestKind(p), p, "other")
     [] sst = "aggsub"      -> XS(q, "agg", [p EXCEPT ![Len(p)] = p[1]] \o (IF Len(p) = 1 THEN <<p[1]>> ELSE <<>>), "this")
+    [] sst = "aggq"        -> XS(q, HonestKind(q), q, "this")      \* a valid signature by exactly the keys of the (altered) list
     [] sst = "ecdsa1"      -> XS(q, "ecdsa", <<p[1]>>, "this")
     [] sst = "ecdsa1other" -> XS(q, "ecdsa", <<p[1]>>, "other")
     [] sst = "ecdsa2"      -> XS(q, "ecdsa", <<second>>, "this")
@@ -237,11 +302,13 @@ XSOf(p, pkst, sst) ==
     [] sst = "junk"        -> XS(q, "junk", <<>>, "this")
     [] sst = "empty"       -> XS(q, "empty", <<>>, "this")
 (* a ring needs the signer inside the ring and at least three members (the library's minimum) *)
-XSBuildable(xs) == xs.kind = "ring" => (Len(xs.pks) >= 3 /\ xs.by[1] \in Rng(xs.pks))
+XSBuildable(xs) == /\ xs.kind = "ring" => (Len(xs.pks) >= 3 /\ xs.by[1] \in Rng(xs.pks))
+                   /\ xs.kind \in {"agg", "ecdsa", "xecdsa", "schnorr"} => xs.by # <<>>
 
 (* owner configurations: inputs and the contract part *)
 OC(ins, ctr) == [ins |-> ins, ctr |-> ctr]
 BasicOwners == {OC(<<>>, "none"), OC(<<In("k1")>>, "none"), OC(<<In("kx")>>, "none"), OC(<<In("A")>>, "none")}
+AcctOwners == {OC(<<In(o)>>, "none") : o \in {"T", "L", "S", "K"}}      \* (A, B, G are among the others)
 AllOwners == BasicOwners \cup
   {OC(<<In(o)>>, "none") : o \in {"k2", "k3", "B", "G", "C"}} \cup
   {OC(<<In("k1"), In("kx")>>, "none"), OC(<<In("kx"), In("k1")>>, "none"), OC(<<In("k1"), In("A")>>, "none"),
@@ -257,7 +324,9 @@ AllOwners == BasicOwners \cup
    OC(<<In("C")>>, "pay"),                        \* the contract's output without justification
    OC(<<InCJ("C"), InCJ("C")>>, "pay"),
    OC(<<InCJ("k1")>>, "none"),
-   OC(<<InMK("k1")>>, "none"), OC(<<InMK("kx")>>, "none"), OC(<<In("k1"), InMK("kx")>>, "none")}
+   OC(<<InMK("k1")>>, "none"), OC(<<InMK("kx")>>, "none"), OC(<<In("k1"), InMK("kx")>>, "none")} \cup
+  AcctOwners \cup
+  {OC(<<In("A"), In("T")>>, "none"), OC(<<In("K"), In("k1")>>, "none"), OC(<<In("S"), In("L")>>, "none"), OC(<<In("T")>>, "vprog")}
 
 BuildSig(v, f, sg, id, oc) ==
   LET d == FormDef[f]
@@ -269,10 +338,10 @@ BuildXS(v, f, pkst, sst, id, oc) ==
   [ver |-> v, init |-> d.init, isigs |-> <<>>, auth |-> d.auth, asigs |-> <<>>,
    xs |-> XSOf(d.pks, pkst, sst), id |-> id, ins |-> oc.ins, ctr |-> oc.ctr, rich |-> FALSE]
 
-(* what an honest sender of each form may spend (as the code requires it) *)
-HonestOwnerSets ==
-  [addr |-> {"k1"}, self |-> {"k1", "k2"}, multi |-> {"k1", "k2", "k3"}, multiA |-> {"k1", "k2", "k3", "A"},
-   acct |-> {"k2", "k3", "A"}, acctI |-> {"k2", "k3"}, xs1 |-> {"k1"}, xs3 |-> {"k1", "k2", "k3"}, xsA |-> {"k1", "k2", "k3", "A"}]
+(* what an honest sender of each form may spend: the outputs of the keys that sign, and of the accounts  *)
+(* whose rule the members named for it in the signer list meet                                           *)
+SignKeys(f) == Rng(FormDef[f].isl) \cup Rng(Lasts(FormDef[f].auth)) \cup Rng(FormDef[f].pks) \cup ({FormDef[f].init} \cap Keys)
+HonestOwnerSets == [f \in Forms |-> SignKeys(f) \cup {a \in Accts : RuleMet(a, MembersVia(a, FormDef[f].auth))}]
 HonestOC(f, oc) == /\ \A i \in DOMAIN oc.ins : ~oc.ins[i].mk /\
                         IF oc.ins[i].cj THEN oc.ins[i].own = "C" /\ oc.ctr = "pay" ELSE oc.ins[i].own \in HonestOwnerSets[f]
                    /\ (oc.ctr = "pay" => Cardinality({i \in DOMAIN oc.ins : oc.ins[i].cj}) = 1)
@@ -286,16 +355,30 @@ Honest(t) == /\ t.id = "ok" /\ (\A i \in DOMAIN t.isigs : SelfValid(t.isigs[i]))
 (* Cases are identified by small tuples <<form, index of the status vector, id status, index of the owner  *)
 (* configuration, version>> (sets of deep records are expensive to normalise); CaseOf builds the record.    *)
 VecTab == [f \in SigForms |-> SetToSeq(Vecs(Len(Slots(f)), MaxDev))]
-XSTab == [f \in XSForms |-> SetToSeq({q \in PkStatuses \X XSigStatuses : XSBuildable(XSOf(FormDef[f].pks, q[1], q[2]))})]
+(* the account forms of the aggregated signature take a slice of the statuses (the old forms take all) *)
+AcctXSStat == {"ok", "short", "long", "lead", "alien"} \X {"honest", "other", "aggsub", "aggq", "ecdsa1", "junk"}
+XSTab == [f \in XSForms |-> SetToSeq({q \in (IF f \in OldXSForms THEN PkStatuses \X XSigStatuses ELSE AcctXSStat) : XSBuildable(XSOf(FormDef[f].pks, q[1], q[2]))})]
 OwnerSeq == SetToSeq(AllOwners)
 BasicIdx == {i \in DOMAIN OwnerSeq : OwnerSeq[i] \in BasicOwners}
-OwnerIdxFor(honestVec) == IF FullOwners \/ honestVec THEN DOMAIN OwnerSeq ELSE BasicIdx
+AcctIdx == {i \in DOMAIN OwnerSeq : OwnerSeq[i] \in AcctOwners}
 TabLen(f) == IF f \in SigForms THEN Len(VecTab[f]) ELSE Len(XSTab[f])
 MaxTab == Max({TabLen(f) : f \in Forms})
-HonestAt(f, k) == IF f \in SigForms THEN VecTab[f][k] = AllValid(Len(VecTab[f][k])) ELSE XSTab[f][k] = <<"ok", "honest">>
+NonValid(vec) == Cardinality({i \in DOMAIN vec : vec[i] # "valid"})
+(* number of deviations from the honest signatures of the form *)
+DevAt(f, k) == IF f \in SigForms THEN NonValid(VecTab[f][k]) ELSE IF XSTab[f][k] = <<"ok", "honest">> THEN 0 ELSE 1
+HonestAt(f, k) == DevAt(f, k) = 0
+(* owner configurations per case: honestly signed - all; otherwise the basic ones (FullOwners: all for the old     *)
+(* forms and one deviation; the new forms: the basic ones and the new accounts); a stale id adds nothing to a     *)
+(* case of the new forms that is refused anyway                                                                   *)
+OwnerIdxFor(f, k, id) ==
+  LET d == DevAt(f, k) IN
+  IF f \in OldForms THEN (IF FullOwners \/ d = 0 THEN DOMAIN OwnerSeq ELSE BasicIdx)
+  ELSE IF d = 0 THEN (IF id = "ok" THEN DOMAIN OwnerSeq ELSE BasicIdx \cup AcctIdx)
+  ELSE IF id = "stale" \/ d > 1 THEN (IF FullOwners /\ id = "ok" THEN BasicIdx ELSE {})
+  ELSE (IF FullOwners THEN BasicIdx \cup AcctIdx ELSE BasicIdx)
 (* a filtered product, not a UNION of many small sets (TLC's UNION is quadratic on large results) *)
 CaseIds == {c \in Forms \X (1..MaxTab) \X {"ok", "stale"} \X (DOMAIN OwnerSeq) \X (1..3) :
-              c[2] <= TabLen(c[1]) /\ c[4] \in OwnerIdxFor(HonestAt(c[1], c[2]))}
+              c[2] <= TabLen(c[1]) /\ c[4] \in OwnerIdxFor(c[1], c[2], c[3])}
 CaseOf(c) == IF c[1] \in SigForms THEN BuildSig(c[5], c[1], VecTab[c[1]][c[2]], c[3], OwnerSeq[c[4]])
              ELSE BuildXS(c[5], c[1], XSTab[c[1]][c[2]][1], XSTab[c[1]][c[2]][2], c[3], OwnerSeq[c[4]])
 
@@ -308,7 +391,7 @@ CaseOf(c) == IF c[1] \in SigForms THEN BuildSig(c[5], c[1], VecTab[c[1]][c[2]], 
 (*   id     : the claimed id                                                                           *)
 (*   none   : node-local annotations (block id, reception time, the regulator's annotation)            *)
 (* kind: bytes string int bool msg (singular message) rmsg rstr rbytes (repeated) map                  *)
-FT(m, f, kind, class, sub) == [name |-> m \o "." \o f, msg |-> m, field |-> f, kind |-> kind, class |-> class, sub |-> sub]
+FT(m, f, kind, class, sb) == [name |-> m \o "." \o f, msg |-> m, field |-> f, kind |-> kind, class |-> class, sub |-> sb]
 FieldTable == <<
   FT("Transaction", "txid", "bytes", "id", ""),
   FT("Transaction", "blockid", "bytes", "none", ""),
@@ -543,54 +626,124 @@ DevMut(K, t, m, res) == {KFName[g] : g \in {h \in Flags : K[h] /\ res \in MutAll
 Riders == {"none", "write"}
 CoinbaseVerdict(K, r) == IF r = "none" \/ K.cb THEN "ok" ELSE "rej"
 
+(* The engine entry Chain.SubmitTx decides on the error of State.VerifyTx alone. *)
+SubmitCode(K, t) == IF VerifyCode(K, t) = "rej" THEN "rej" ELSE "ok"
+SubAllowed(K, t) == {IF v = "soft" THEN "ok" ELSE v : v \in AllowedK(K, t)}
+
+(* Block-borne transactions.  The entry e (a case, or a base t changed by mutation m) arrives inside a  *)
+(* peer block [award, e] at a node                                                                      *)
+(*   pool "none": that has never seen it,                                                               *)
+(*   pool "base": whose unconfirmed pool holds the accepted t (admitted by Chain.SubmitTx); same: the   *)
+(*                entry claims the id of the pooled transaction,                                        *)
+(* and the block is applied via "walk" (Ledger.ConfirmBlock, State.Walk to the new tip: the engine's    *)
+(* sync path) or via "play" (State.PlayAndRepost).  Outcome: res ("ok": the state machine arrived at    *)
+(* the block) and app, the content in effect afterwards: "entry", "pool" (the pooled transaction's) or  *)
+(* "none".                                                                                              *)
+Pools == {"none", "base"}
+Vias == {"walk", "play"}
+NoBlk == [pool |-> "-", via |-> "-", same |-> FALSE, res |-> "-", app |-> "-"]
+Entry(K, t, m) == IF m = NoMut THEN t ELSE MutTx(K, t, m)
+(* which ids the entry may claim relative to the base: an unchanged id field over changed content is   *)
+(* abstractly "stale"; a recomputed id over changed content differs; where nothing the abstraction sees *)
+(* changed (uncovered field, appended signature bytes) the recomputed id may or may not differ          *)
+SameChoices(t, e, m) == IF m = NoMut \/ e.id = "stale" THEN {TRUE} ELSE IF e = t THEN {TRUE, FALSE} ELSE {FALSE}
+(* transcription: Walk rolls the pool back, verifies every block entry (procTodoBlkForWalk:            *)
+(* ImmediateVerifyTx) and applies the block's copy; PlayAndRepost (processUnconfirmTxs / verifyDAGTxs)  *)
+(* takes an entry whose id is in the pool as confirmed: not verified, not applied, the pooled copy's    *)
+(* effects stay - sound only where the block's copy is the pooled content (IDEAL)                       *)
+BlockCode(K, t, e, pool, via, same) ==
+  IF via = "play" /\ pool = "base" /\ same /\ (K.ppool \/ e = t) THEN [res |-> "ok", app |-> "pool"]
+  ELSE IF (IF via = "play" THEN VerifyCode(K, e) # "rej" ELSE Immediate(K, e)) THEN [res |-> "ok", app |-> "entry"]
+  ELSE [res |-> "rej", app |-> IF via = "play" /\ pool = "base" THEN "pool" ELSE "none"]
+(* what the property allows for an observed outcome: res and the set fl of contents the state after the  *)
+(* block is consistent with ("e" entry, "p" pooled, "n" nothing; they may coincide)                       *)
+BlkVerdicts(K, t, m) == IF m # NoMut /\ m.f # "Transaction.txid" /\ Coverage(K, t.ver, m.f) = "none" THEN {"ok", "rej"}
+                        ELSE {IF v = "soft" THEN "ok" ELSE v : v \in AllowedK(K, Entry(K, t, m))}
+(* samec: the entry IS the pooled transaction (equal up to the annotations a node adds itself: block id,      *)
+(* reception time; the driver compares the real protobufs; abstractly e = t).  The pooled-id deviation explains *)
+(* an outcome only for an entry that claims the pooled id and is NOT the pooled transaction.                   *)
+BlkAllowedK(K, t, m, pool, via, same, samec, res, fl) ==
+  \/ /\ res \in BlkVerdicts(K, t, m)
+     /\ (res = "ok" => "e" \in fl)                      \* an accepted block's entry is what is applied ...
+     /\ (res = "rej" => fl \cap {"n", "p"} # {})         \* ... and nothing of a refused one
+  \/ /\ K.ppool /\ via = "play" /\ pool = "base" /\ same /\ ~samec
+     /\ res = "ok" /\ "p" \in fl
+DevBlk(K, t, m, pool, via, same, samec, res, fl) == {KFName[g] : g \in {h \in Flags : K[h] /\ BlkAllowedK(Only(h), t, m, pool, via, same, samec, res, fl)}}
+
 (* rich bases of part (b): every field of the schema carries a value *)
 RichOC == OC(<<In("k1"), In("k2")>>, "vprog")
 RichBases == {[HonestTx(v, f, RichOC) EXCEPT !.rich = TRUE] : v \in 1..3, f \in {"multi", "xs3"}}
 
 -----------------------------------------------------------------------------
 T0 == BuildSig(3, "addr", <<"valid">>, "ok", OC(<<>>, "none"))
-Init == phase = "init" /\ tx = T0 /\ orig = T0 /\ mut = NoMut /\ verdict = "-" /\ hist = <<>>
-Reset == phase' = "init" /\ tx' = T0 /\ orig' = T0 /\ mut' = NoMut /\ verdict' = "-" /\ hist' = <<>>
+Init == phase = "init" /\ tx = T0 /\ orig = T0 /\ mut = NoMut /\ verdict = "-" /\ subm = "-" /\ blk = NoBlk /\ hist = <<>>
+Reset == phase' = "init" /\ tx' = T0 /\ orig' = T0 /\ mut' = NoMut /\ verdict' = "-" /\ subm' = "-" /\ blk' = NoBlk /\ hist' = <<>>
 
 Build(t) == /\ phase = "init"
             /\ tx' = t /\ orig' = t /\ phase' = "built" /\ hist' = Append(hist, [op |-> "case"])
-            /\ UNCHANGED <<mut, verdict>>
+            /\ UNCHANGED <<mut, verdict, subm, blk>>
 (* the transcription of the code answers *)
 Verify == /\ phase \in {"built", "mutated"}
           /\ verdict' = (IF phase = "mutated" /\ mut.f # "Transaction.txid" /\ Coverage(KC, orig.ver, mut.f) = "none" THEN "ok" ELSE VerifyCode(KC, tx))
+          /\ subm' = (IF phase = "mutated" /\ mut.f # "Transaction.txid" /\ Coverage(KC, orig.ver, mut.f) = "none" THEN "ok" ELSE SubmitCode(KC, tx))
           /\ phase' = IF phase = "built" THEN "verified" ELSE "done"
           /\ hist' = Append(hist, [op |-> "verify"])
-          /\ UNCHANGED <<tx, orig, mut>>
+          /\ UNCHANGED <<tx, orig, mut, blk>>
 Mutate(m) == /\ phase = "verified" /\ verdict = "ok" /\ orig.rich
              /\ tx' = MutTx(KC, orig, m) /\ mut' = m /\ phase' = "mutated" /\ hist' = Append(hist, [op |-> "mut"])
-             /\ UNCHANGED <<orig, verdict>>
+             /\ UNCHANGED <<orig, verdict, subm, blk>>
+(* the transaction (a case as built, or the mutated copy of an accepted base) arrives inside a peer block; *)
+(* the pool can only hold the base if that was accepted                                                   *)
+Block(pool, via, same) ==
+  /\ phase \in {"verified", "done"}
+  /\ (pool = "base" => (IF phase = "done" THEN TRUE ELSE verdict = "ok"))
+  /\ same \in SameChoices(orig, tx, mut)
+  /\ blk' = [pool |-> pool, via |-> via, same |-> same] @@ BlockCode(KC, orig, tx, pool, via, same)
+  /\ phase' = "blocked" /\ hist' = Append(hist, [op |-> "blk"])
+  /\ UNCHANGED <<tx, orig, mut, verdict, subm>>
 (* guards outside the quantifiers: TLC enumerates the bound set before it looks at the action's guard *)
 Next == \/ (phase = "init" /\ \E c \in CaseIds : Build(CaseOf(c)))
         \/ (phase = "init" /\ \E t \in RichBases : Build(t))
         \/ Verify
         \/ (phase = "verified" /\ verdict = "ok" /\ orig.rich /\ \E m \in MutsFor(orig) : Mutate(m))
+        \/ (phase \in {"verified", "done"} /\ \E pool \in Pools, via \in Vias, same \in BOOLEAN : Block(pool, via, same))
 Spec == Init /\ [][Next]_vars
-View == <<phase, tx, orig, mut, verdict>>
+View == <<phase, tx, orig, mut, verdict, subm, blk>>
 Obs == verdict
 
 -----------------------------------------------------------------------------
 (* Invariants (asserted on IDEAL) *)
-TypeOK == /\ phase \in {"init", "built", "verified", "mutated", "done"}
-          /\ verdict \in {"ok", "rej", "soft", "-"}
+TypeOK == /\ phase \in {"init", "built", "verified", "mutated", "done", "blocked"}
+          /\ verdict \in {"ok", "rej", "soft", "-"} /\ subm \in {"ok", "rej", "-"}
           /\ tx.ver \in 1..3 /\ tx.id \in {"ok", "stale"} /\ tx.ctr \in {"none", "vprog", "pay"}
 (* (a) accepted => authorised: id = hash of content, initiator and every listed signer signed this digest, *)
 (*     every spent output's owner is among them, through its account's rule, or contract-justified        *)
 Sound == (phase \in {"verified", "done"} /\ verdict # "rej") => (verdict = "ok" /\ Authorised(tx))
+(* (a) the engine entry admits nothing else *)
+SubmitSound == (phase \in {"verified", "done"} /\ subm = "ok") => Authorised(tx)
 (* (a) an honestly built transaction of every form is accepted; the transcription stays inside Allowed *)
-HonestAccepted == (phase = "verified" /\ Honest(tx)) => verdict = "ok"
-Conforms == phase = "verified" => verdict \in AllowedIdeal(tx)
+HonestAccepted == (phase = "verified" /\ Honest(tx)) => (verdict = "ok" /\ subm = "ok")
+Conforms == phase = "verified" => (verdict \in AllowedIdeal(tx) /\ subm \in SubAllowed(K0, tx))
 EveryFormHonest == phase = "init" => \A f \in HonestForms, v \in 1..3 : \E oc \in AllOwners : HonestOC(f, oc) /\ oc.ins # <<>> /\ VerifyCode(K0, HonestTx(v, f, oc)) = "ok"
+(* (a) one member does not become two by being listed twice or under two names; an account initiator of  *)
+(*     the aggregated form is never accepted on signatures of non-members                                *)
+DistinctMembers == (phase = "verified" /\ verdict = "ok") =>
+                      \A i \in DOMAIN tx.ins : (IsAcct(tx.ins[i].own) /\ ~tx.ins[i].cj) => RuleMet(tx.ins[i].own, ValidSigners(tx))
+(* (a) block-borne: a block is applied only if its entry is authorised, and then the entry's own content   *)
+(*     is what is in effect (the pooled copy only where it is the same content); a refused block leaves    *)
+(*     none of the entry's content                                                                        *)
+BlockSound == phase = "blocked" =>
+                 /\ (blk.res = "ok" => Authorised(tx) /\ (blk.app = "entry" \/ (blk.app = "pool" /\ tx = orig)))
+                 /\ (blk.res = "rej" => blk.app # "entry")
+                 /\ (Honest(tx) => blk.res = "ok")
+                 /\ LET fl == (IF blk.app = "entry" \/ (tx = orig /\ blk.app = "pool") THEN {"e"} ELSE {}) \cup (IF blk.app = "pool" THEN {"p"} ELSE {}) \cup (IF blk.app = "none" THEN {"n"} ELSE {})
+                    IN BlkAllowedK(K0, orig, mut, blk.pool, blk.via, blk.same, tx = orig, blk.res, fl)
 (* (b) changing a field of class digest / id of an accepted transaction yields rejection, whatever the   *)
 (*     mutator recomputes; changing a signature field yields rejection unless the result is authorised   *)
 MutationRejected ==
   phase = "done" =>
      LET c == FieldOf(mut.f).class IN
-     /\ (c \in {"digest", "id"} => verdict = "rej")
+     /\ (c \in {"digest", "id"} => verdict = "rej" /\ subm = "rej")
      /\ (c = "sig" /\ mut.st = "none" /\ tx # orig => verdict = "rej")
 (* (b) the table and the encoders agree: every semantic field is bound by the signing digest of every   *)
 (*     version, signatures by the id only, annotations by nothing                                        *)
